@@ -36,7 +36,9 @@ def parseAct (tok : String) : Act :=
 
 def parseOp (ts : List String) : Op :=
   match ts with
-  | ["new"] => .new
+  | ["new"] => .new 0
+  | ["new", "C17"] => .new 17
+  | ["new", "C18"] => .new 18
   | ["end"] => .finish
   | "beh" :: k :: n :: acts =>
     match int? k, nat? n with
@@ -106,6 +108,16 @@ def ubName : Ub → String
   | .nextTimerHead => "tickit_evloop_next_timer_msec reads a freed timer"
   | .doubleFree => "double free"
 
+def isNew : Op → Bool
+  | .new _ => true
+  | _ => false
+
+/-- Which property a crash the model predicts belongs to (17, 18). -/
+def ubOwner : Ub → Nat
+  | .invokeWatchType => 18
+  | .sigLoopThis => 18
+  | _ => 17
+
 def showObs (st : St) (op : Op) (dead : Bool) : String :=
   let evs := String.join (st.log.reverse.map fun e => showEv e ++ " ")
   let cut (crash : String) : String := if st.log.isEmpty then crash else evs ++ " <cut>"
@@ -118,7 +130,7 @@ def showObs (st : St) (op : Op) (dead : Bool) : String :=
     | .finish => s!"leaks={if (leaked st).isEmpty then 0 else 1}"
     | .bad => if dead then "dead" else "bad-op"
     | _ =>
-      if dead && op != .new then "dead"
+      if dead && !isNew op then "dead"
       else
         evs ++ "ok " ++ trailer st
 
@@ -135,15 +147,23 @@ def cfgOfSource : Config :=
 
 def step (d : DSt) (ts : List String) (impl : String) : DSt × String × String :=
   let op := parseOp ts
-  let m0 := if op = .new then build cfgOfSource else d.m
+  let m0 := if isNew op then build cfgOfSource else d.m
   let dead := !m0.alive
   let m := applyOp m0 op
   let obs := showObs m op dead
   let why := match m.status with
     | .ub w => ubName w
     | .killed s => s!"killed by signal {s}"
-    | _ => ""
-  let (s, verdict) := Spec.step (if op = .new then Spec.init else d.s) op (toks impl) why
+    | _ =>
+      if op = .finish then
+        ", ".intercalate ((leaked m).map fun a =>
+          let w := m.getW a
+          s!"{Spec.kindName w.type} {w.slot} was never released")
+      else ""
+  let owner := match m.status with
+    | .ub w => ubOwner w
+    | _ => 0
+  let (s, verdict) := Spec.step d.s op (toks impl) why owner
   ({ m := m, s := s, started := true }, obs, verdict)
 
 def engine : Engine :=
